@@ -866,7 +866,9 @@ class SsbGraphMinimizer:
                 # (see optimize_ending_opcodes). Nothing runs along that edge: it never closes a loop.
                 real_op = op.root if isinstance(op, SsbLabelJump) else op
                 runs_on = (
-                    real_op.op_code.name not in OPS_THAT_END_CONTROL_FLOW or rtn[op_i - 1].op_code.name in OPS_CTX
+                    real_op.op_code.name not in OPS_THAT_END_CONTROL_FLOW
+                    or real_op.op_code.name in OPS_THAT_WILL_JUMP_GUARANTEED
+                    or rtn[op_i - 1].op_code.name in OPS_CTX
                 )
                 if runs_on and is_loop(g, g.vs[op_i], e):
                     e["loop"] = True
